@@ -84,9 +84,13 @@ def make_family(name, reqs):
 
 
 def families(tier):
+    from checks import c06
     fams = [
         make_family('claim+claim', [claim(1, 1), claim(2, 3)]),
         make_family('claim+put_invs', [claim(1, 1), c05.put_invs(2)]),
+        # the same consumer: a claim racing a release
+        make_family('claim(c1)+release(c1)', [claim(1, 1),
+                                              c06.put_empty(2, 'int')]),
     ]
     if tier == 'thorough':
         fams += [
@@ -95,6 +99,9 @@ def families(tier):
             make_family('claim+post2', [claim(1, 1), post_claim(2, [4, 5])]),
             make_family('claim+delete_inv', [claim(1, 1), c05.delete_inv(2)]),
             make_family('claim+reshape', [claim(1, 1), c05.reshape(2)]),
+            make_family('claim(c1)+delete(c1)', [claim(1, 1), c06.delete(2)]),
+            make_family('claim(c1)+post_release(c1)',
+                        [claim(1, 1), c06.post_empty(2, 'int')]),
             make_family('claim+claim+put_invs',
                         [claim(1, 1), claim(2, 3), c05.put_invs(3)]),
         ]
